@@ -321,3 +321,45 @@ func H10h_AfterError() {
 	vrt.Assert("unmarshal second ok", p.Unmarshal(d2, &o2) == nil)
 	vrt.Assert("decode after a failed decode is unaffected by it", x.Eq(&o2, false))
 }
+
+// H10m_PtrSlice: a slice of struct pointers decoded into a target whose
+// backing array (with old pointers) is re-used: elements must equal the
+// encoded ones and the caller's old pointees must not be written through.
+func H10m_PtrSlice() {
+	setBounds()
+	B.Slice = 2
+	p := newPlenc(cfgDef)
+	var src V_TCountedP
+	FillSmall = !vrt.Thorough()
+	src.Fill("src")
+	FillSmall = false
+	data, err := p.Marshal(nil, &src.V)
+	vrt.Assert("marshal ok", err == nil)
+	old := &cat.TIn{X: vrt.Int("old.X"), Y: vrt.String("old.Y", 1)}
+	keepX, keepY := old.X, old.Y
+	var tgt cat.TCountedP
+	tgt.A = make([]*cat.TIn, vrt.Choice("prior.len", 3), 3)
+	for i := range tgt.A {
+		tgt.A[i] = old
+	}
+	spare := tgt.A[:3]
+	spare[2] = old
+	vrt.Assert("unmarshal ok", p.Unmarshal(data, &tgt) == nil)
+	if len(src.V.A) != 0 {
+		vrt.Assert("exactly the encoded elements", len(tgt.A) == len(src.V.A))
+		if len(tgt.A) == len(src.V.A) {
+			for i := range tgt.A {
+				if tgt.A[i] == nil {
+					vrt.Assert("element present", false)
+					continue
+				}
+				var want cat.TIn
+				if src.V.A[i] != nil {
+					want = *src.V.A[i]
+				}
+				vrt.Assert("element equals the encoded one (no stale fields)", eqIn(&want, tgt.A[i]))
+			}
+		}
+		vrt.Assert("the caller's old pointee is not written through", vrt.And(old.X == keepX, old.Y == keepY))
+	}
+}
